@@ -212,9 +212,13 @@ def worker_main(args):
     indices = range(args.start, args.stop, args.stride)
     if hasattr(chk, "worker_setup"):
         chk.worker_setup()
+    # development aid (tools/try_mutant.sh): stop all workers once one of them has reported a violation
+    stopfile = os.environ.get("VERIF_STOP_FILE")
     for index in indices:
         if deadline and time.time() > deadline:
             stats["wall_cap_hit"] += 1
+            break
+        if stopfile and os.path.exists(stopfile):
             break
         faulthandler.dump_traceback_later(args.run_timeout, exit=True)
         try:
@@ -256,6 +260,8 @@ def worker_main(args):
             finally:
                 faulthandler.cancel_dump_traceback_later()
             emit({"type": "violation", "index": index, "violation": v, "replay": path})
+            if stopfile:
+                open(stopfile, "w").close()
             break
     # distinct signatures / states go through /dev/shm as arrays of 64-bit ints
     import numpy as np
